@@ -611,6 +611,8 @@ class Workspace(AbstractContextManager):
 
         if isinstance(entity, (Concatenated, ConcatenatedPropertyGroup)):
             entity.concatenator.remove_entity(entity)
+            if entity in entity.parent.children:
+                entity.parent.children.remove(entity)
             return
 
         self.workspace.remove_recursively(entity)
